@@ -3,6 +3,7 @@
 import Frugal.Tags
 import Frugal.Proofs.TagsSpell
 import Frugal.Props.Inst.F_skeleton_resolver
+import Frugal.Props.Inst.F_skeleton_residualDefs
 namespace Frugal.C12
 open Frugal
 
@@ -132,4 +133,7 @@ example : matchAnnot (.strct "" 0) .strct "base.Msg>".toList = some (">".toList,
     control structure (guards, switches, loops, returns, call sequence): regenerated fingerprint =
     committed fingerprint of the unchanged tree -/
 theorem model_written_from_this_code : Generated.facts.resolverSkeleton = Skeleton.resolver := Instances.skeleton_resolver
+/-- the rest of `internal/defs` — every function and package-level declaration that the resolver fingerprint does not cover (the error constructors, `Type` and its methods, the keyword and option tables, `T_int`, the caching resolver) — is, as full text, that of the tree the model was written from (R4 rewrote two character predicates nothing was watching) -/
+theorem rest_of_resolver_package_as_modelled : Generated.facts.residualDefsSkeleton = Skeleton.residualDefs := Instances.skeleton_residualDefs
+
 end Frugal.C12
